@@ -337,6 +337,9 @@ class SubmissionTask(Task):
 class CreateMultipartUploadTask(Task):
     """Task to initiate a multipart upload"""
 
+    # The extra args that also need to be sent when aborting the upload.
+    ABORT_MULTIPART_ARGS = ['RequestPayer', 'ExpectedBucketOwner']
+
     def _main(self, client, bucket, key, extra_args):
         """
         :param client: The client to use when calling CreateMultipartUpload
@@ -354,11 +357,15 @@ class CreateMultipartUploadTask(Task):
         upload_id = response['UploadId']
 
         # Add a cleanup if the multipart upload fails at any point.
+        abort_extra_args = self._get_kwargs_with_params_to_include(
+            extra_args, self.ABORT_MULTIPART_ARGS
+        )
         self._transfer_coordinator.add_failure_cleanup(
             client.abort_multipart_upload,
             Bucket=bucket,
             Key=key,
             UploadId=upload_id,
+            **abort_extra_args,
         )
         return upload_id
 
